@@ -50,6 +50,17 @@ type Send struct {
 	// fragment spread from the operation, "inline" = inside an inline fragment.  Arguments (and the
 	// variables and defaults they use) must arrive the same from every place.
 	Place string `json:"place,omitempty"`
+	// Sels: when present the request selects the field several times (aliases s0, s1, ...), each selection with its
+	// own arguments and place; Args/Place above are then unused.
+	Sels []Sel `json:"sels,omitempty"`
+}
+
+type Sel struct {
+	Alias  string   `json:"alias"`
+	Args   []LField `json:"args"`
+	Place  string   `json:"place,omitempty"`
+	Expect string   `json:"expect"` // echo | reject : what this selection yields taken on its own
+	Sent   *Val     `json:"sent,omitempty"`
 }
 
 type Case struct {
@@ -204,14 +215,37 @@ func (s *Send) document(op, root string) string {
 		}
 		b.WriteString("(" + strings.Join(xs, ", ") + ")")
 	}
-	field := "f"
-	if len(s.Args) > 0 {
-		xs := []string{}
-		for _, a := range s.Args {
-			xs = append(xs, a.N+": "+a.V.text())
+	fieldText := func(alias string, args []LField) string {
+		field := "f"
+		if alias != "" {
+			field = alias + ": f"
 		}
-		field += "(" + strings.Join(xs, ", ") + ")"
+		if len(args) > 0 {
+			xs := []string{}
+			for _, a := range args {
+				xs = append(xs, a.N+": "+a.V.text())
+			}
+			field += "(" + strings.Join(xs, ", ") + ")"
+		}
+		return field
 	}
+	if len(s.Sels) > 0 {
+		body, frags := " { g(x: 1)", ""
+		for k, sel := range s.Sels {
+			switch sel.Place {
+			case "fragment":
+				body += fmt.Sprintf(" ...Fr%d", k)
+				frags += fmt.Sprintf("\nfragment Fr%d on %s { %s }", k, root, fieldText(sel.Alias, sel.Args))
+			case "inline":
+				body += " ... on " + root + " { " + fieldText(sel.Alias, sel.Args) + " }"
+			default:
+				body += " " + fieldText(sel.Alias, sel.Args)
+			}
+		}
+		b.WriteString(body + " }" + frags)
+		return b.String()
+	}
+	field := fieldText("", s.Args)
 	switch s.Place {
 	case "fragment":
 		b.WriteString(" { g(x: 1) ...Fr }\nfragment Fr on " + root + " { " + field + " }")
@@ -259,7 +293,7 @@ func collect(w *Lit, m *MTy, get func() *Lit, set func(*Lit), inList bool, out *
 
 var mutationClasses = []string{"wrong-kind", "wrong-kind", "wrong-kind", "null-for-required", "null-for-required", "unknown-enum",
 	"bad-base64", "bad-time", "bad-text", "int-out-of-range", "int-out-of-range", "int-fractional", "f32-unrepresentable",
-	"unknown-field", "duplicate-field", "default-on-required", "noncanonical-base64"}
+	"unknown-field", "duplicate-field", "default-on-required", "noncanonical-base64", "look-alike"}
 
 var badTimes = []string{"", "garbage", "2020-01-02", "2020-01-02T03:04:05", "2020-01-02 03:04:05Z", "2020-01-02t03:04:05Z",
 	"2020-01-02T03:04:05z", "2020-13-02T03:04:05Z", "2020-00-02T03:04:05Z", "2020-01-00T03:04:05Z", "2020-01-32T03:04:05Z",
@@ -446,6 +480,8 @@ type Obs struct {
 	Dump   *Val   `json:"dump,omitempty"`
 	CallsF int32  `json:"calls_f"`
 	CallsG int32  `json:"calls_g"`
+	// Result: the response data (alias -> text the resolver answered), for requests with several selections
+	Result map[string]interface{} `json:"result,omitempty"`
 	// the same request through graphql.HTTPHandler (the repository's own Parse / PrepareQuery / Execute sequence)
 	HTTPErr    string `json:"http_err,omitempty"`
 	HTTPDump   *Val   `json:"http_dump,omitempty"`
@@ -486,7 +522,7 @@ func build(td *TyDesc) (b *built, err error) {
 	fn := reflect.MakeFunc(reflect.FuncOf([]reflect.Type{rt}, []reflect.Type{strT}, false), func(in []reflect.Value) []reflect.Value {
 		atomic.AddInt32(b.callsF, 1)
 		*b.got = in[0]
-		return []reflect.Value{reflect.ValueOf("ok")}
+		return []reflect.Value{reflect.ValueOf(dumpText(in[0], b.mty))}
 	})
 	q.FieldFunc("f", fn.Interface())
 	q.FieldFunc("g", func(args struct{ X int32 }) int32 {
@@ -505,6 +541,16 @@ func build(td *TyDesc) (b *built, err error) {
 	}
 	b.schema = s
 	return b, nil
+}
+
+// dumpText is what the resolver answers: the canonical dump of the argument it was called with.
+func dumpText(rv reflect.Value, m *MTy) (out string) {
+	defer func() {
+		if e := recover(); e != nil {
+			out = "dump-panic: " + fmt.Sprint(e)
+		}
+	}()
+	return js(dump(rv, m))
 }
 
 func isClient(err error) bool {
@@ -544,11 +590,16 @@ func (b *built) exec(s *Send) (o Obs) {
 			return
 		}
 		e := graphql.NewExecutor(graphql.NewImmediateGoroutineScheduler())
-		if _, err := e.Execute(ctx, b.schema.Query, nil, q); err != nil {
+		res, err := e.Execute(ctx, b.schema.Query, nil, q)
+		if err != nil {
 			o = Obs{Stage: "exec", Client: isClient(err), Err: err.Error()}
 			return
 		}
 		o = Obs{Stage: "ok"}
+		if len(s.Sels) > 0 {
+			raw, _ := json.Marshal(res)
+			json.Unmarshal(raw, &o.Result)
+		}
 		if b.got.IsValid() {
 			o.Dump = dump(*b.got, b.mty)
 		}
@@ -823,7 +874,142 @@ func searchVariant(r *vh.Rng, seeds []Case) Case {
 	return c
 }
 
+// ---- look-alikes: one request, the field selected several times with arguments that print the same ----
+
+var forceString = "" // when set, every string-typed leaf genString makes is this text
+
+// lookAlikePairs: (string, the non-string JSON value whose fmt %v form is that string)
+var lookAlikePairs = []struct {
+	s string
+	w *Lit
+}{
+	{"1", &Lit{K: "int", I: "1"}}, {"-7", &Lit{K: "int", I: "-7"}}, {"2.5", &Lit{K: "float", F: 2.5}}, {"1e+21", &Lit{K: "float", F: 1e21}},
+	{"true", &Lit{K: "bool", B: true}}, {"false", &Lit{K: "bool", B: false}},
+	{"[1 2]", &Lit{K: "list", L: []*Lit{{K: "int", I: "1"}, {K: "int", I: "2"}}}}, {"[]", &Lit{K: "list", L: []*Lit{}}},
+	{"[a b]", &Lit{K: "list", L: []*Lit{{K: "str", S: "a"}, {K: "str", S: "b"}}}},
+	{"map[a:1]", &Lit{K: "obj", O: []LField{{"a", &Lit{K: "int", I: "1"}}}}}, {"<nil>", &Lit{K: "null"}},
+}
+
+func cloneW(w *Lit) *Lit { return w.clone() }
+
+// selsFor renders one wire value as the arguments of a selection, as literals or through variables of its own.
+func selArgs(r *vh.Rng, s *Send, k int, w *Lit, viaVars bool) []LField {
+	if !viaVars {
+		return deNull(w).O
+	}
+	var args []LField
+	for i, f := range w.O {
+		name := fmt.Sprintf("s%dv%d", k, i)
+		s.Defs = append(s.Defs, VarDef{Name: name})
+		args = append(args, LField{f.N, &Lit{K: "var", S: name}})
+		if f.V.K == "null" && r.Bool() {
+			continue
+		}
+		s.Vars[name] = toJSON(f.V, r.Bool())
+	}
+	return args
+}
+
+// genLookAlike: a valid argument set and a twin that differs at one position by the JSON kind only - the twin's value
+// at that position prints (fmt %v) exactly like the valid one.  The twins are selected in one request in both orders,
+// as literals and through variables, at random places.
+func genLookAlike(r *vh.Rng) Case {
+	defer func() { forceString = "" }()
+	for {
+		forceString = ""
+		stringSide := r.Chance(45)
+		pair := lookAlikePairs[r.Intn(len(lookAlikePairs))]
+		if stringSide {
+			forceString = pair.s
+		}
+		td := pickTop(r)
+		nilTwin := !stringSide && r.Chance(25)
+		if nilTwin { // a nil pointer to string and the string "<nil>": both valid, different values
+			td = &TyDesc{K: "struct", Fields: append(append([]FieldDesc{}, td.Fields...), FieldDesc{Name: "zs", T: &TyDesc{K: "ptr", Elem: &TyDesc{K: "scalar", Name: "string"}}})}
+		}
+		m := mtyOf(td.reflectType())
+		v, w := genVal(r, m, 2)
+		forceString = ""
+		w2 := cloneW(w)
+		var v2 *Val // nil: the twin is refused
+		if nilTwin {
+			i := len(w.O) - 1
+			w.O[i].V, w2.O[i].V = &Lit{K: "null"}, &Lit{K: "str", S: "<nil>"}
+			v.Fs[i].V = &Val{K: "nil"}
+			cp := *v
+			cp.Fs = append([]VField{}, v.Fs...)
+			cp.Fs[i].V = &Val{K: "ptr", P: &Val{K: "str", S: "<nil>"}}
+			v2 = &cp
+		} else {
+			var nodes []node
+			for i := range w2.O {
+				i := i
+				collect(w2.O[i].V, m.Fields[i].T, func() *Lit { return w2.O[i].V }, func(n *Lit) { w2.O[i].V = n }, false, &nodes)
+			}
+			var cand []node
+			for _, n := range nodes {
+				g := n.get()
+				bk := n.ty.base().K
+				switch {
+				case stringSide && g.K == "str" && bk == "string" && g.S == pair.s && (pair.w.K != "null" || n.ty.required()):
+					cand = append(cand, n) // a string -> the value that prints like it (wrong kind for a string argument)
+				case !stringSide && g.K == "null" && bk != "string":
+					cand = append(cand, n) // nil -> "<nil>" where no string is accepted... or is not a valid one
+				case !stringSide && g.K != "null" && g.K != "str" && g.K != "enum":
+					cand = append(cand, n) // number / bool / list / object -> the string that prints like it
+				}
+			}
+			if len(cand) == 0 {
+				continue
+			}
+			n := cand[r.Intn(len(cand))]
+			if stringSide {
+				n.set(pair.w.clone())
+			} else {
+				txt := fmt.Sprint(toJSON(n.get(), true))
+				if n.get().K == "null" && (n.ty.base().K == "text" || n.ty.base().K == "bytes" || n.ty.base().K == "time" || n.ty.base().K == "enum") {
+					txt = "<nil>"
+				}
+				n.set(&Lit{K: "str", S: txt})
+			}
+		}
+		c := Case{Ty: td, Class: "look-alike", Expect: "any", Sent: v}
+		mk := func(order []int, viaVars bool, extra bool) Send {
+			s := Send{Transport: "look-alike-literal", Defs: []VarDef{{Name: "nul"}}, Vars: map[string]interface{}{}}
+			if viaVars {
+				s.Transport = "look-alike-variable"
+			}
+			ws := []*Lit{w, w2}
+			vs := []*Val{v, v2}
+			if extra {
+				order = append([]int{0}, order...)
+			}
+			for k, which := range order {
+				sel := Sel{Alias: fmt.Sprintf("s%d", k), Expect: "echo", Sent: vs[which]}
+				if vs[which] == nil {
+					sel.Expect = "reject"
+				}
+				sel.Args = selArgs(r, &s, k, ws[which], viaVars)
+				switch p := r.Intn(100); {
+				case p < 25:
+					sel.Place = "fragment"
+				case p < 40:
+					sel.Place = "inline"
+				}
+				s.Sels = append(s.Sels, sel)
+			}
+			return s
+		}
+		c.Sends = append(c.Sends, mk([]int{0, 1}, false, false), mk([]int{1, 0}, false, false), mk([]int{0, 1}, true, false), mk([]int{1, 0}, true, false),
+			mk([]int{0, 1}, r.Bool(), true), mk([]int{0, 0}, r.Bool(), false))
+		return c
+	}
+}
+
 func genCase(r *vh.Rng) Case {
+	if fixedClass == "" && r.Chance(12) {
+		return genLookAlike(r)
+	}
 	if fixedClass == "valid" || (fixedClass == "" && !r.Chance(30)) {
 		td := pickTop(r)
 		m := mtyOf(td.reflectType())
@@ -838,9 +1024,15 @@ func genCase(r *vh.Rng) Case {
 	if fixedClass != "" && fixedClass != "malformed" {
 		cls = fixedClass
 	}
+	if cls == "look-alike" {
+		return genLookAlike(r)
+	}
 	for try := 0; ; try++ {
 		if try > 300 {
 			cls, try = r.Pick(mutationClasses), 0
+			if cls == "look-alike" {
+				return genLookAlike(r)
+			}
 		}
 		td := pickTop(r)
 		m := mtyOf(td.reflectType())
@@ -903,7 +1095,7 @@ func main() {
 	o := vh.ParseFlags()
 	log.SetOutput(ioutil.Discard) // server.go logs every refused request
 	run := vh.NewRun("C18", o)
-	run.Rule = "cases = (argument struct type, value or mutated wire form) sent through 1-5 transports (literal, variable, nested-variable, default, default-overridden); 70% in-range values, 30% malformed (13 mutation classes); 30% of the sends put the field into a named or an inline fragment; every request also goes through graphql.HTTPHandler and over a JSON socket (subscribe or mutate); distinct by JSON text of the case; non-trivial = valid case whose value differs from the zero value of its type, or malformed case (the mutation was applied)"
+	run.Rule = "cases = (argument struct type, value or mutated wire form) sent through 1-5 transports (literal, variable, nested-variable, default, default-overridden); 70% in-range values, 30% malformed (13 mutation classes); 12% look-alike requests (the field selected 2-3 times under aliases, in fragments too, with argument sets that print the same under fmt %v but differ in JSON kind at one position, both orders, literals and variables); 30% of the sends put the field into a named or an inline fragment; every request also goes through graphql.HTTPHandler and over a JSON socket (subscribe or mutate); distinct by JSON text of the case; non-trivial = valid case whose value differs from the zero value of its type, or malformed case (the mutation was applied)"
 	r := vh.NewRng(o.Seed)
 
 	var cases []Case
@@ -972,7 +1164,7 @@ func main() {
 			run.Hist("argtype:" + f.T.shape())
 		}
 		var obs []Obs
-		var sendTerms []string
+		var sendTerms, multiTerms []string
 		for k := range c.Sends {
 			s := &c.Sends[k]
 			ob := b.exec(s)
@@ -982,6 +1174,11 @@ func main() {
 			run.Hist("transport:" + s.Transport)
 			run.Hist("outcome:" + ob.Stage)
 			tag := fmt.Sprintf("[%s] %s vars=%s", s.Transport, s.query(), js(s.Vars))
+			multi := len(s.Sels) > 0
+			wantF := int32(1)
+			if multi {
+				wantF = int32(len(s.Sels))
+			}
 
 			// ---- oracle (implementation only) ----
 			switch ob.Stage {
@@ -999,7 +1196,7 @@ func main() {
 					run.Fail(idx, "resolver-ran-before-rejection", fmt.Sprintf("calls f=%d g=%d %s", ob.CallsF, ob.CallsG, tag), c)
 				}
 			case "ok":
-				if ob.CallsF != 1 || ob.CallsG != 1 {
+				if ob.CallsF != wantF || ob.CallsG != 1 {
 					run.Fail(idx, "resolver-call-count", fmt.Sprintf("calls f=%d g=%d %s", ob.CallsF, ob.CallsG, tag), c)
 				}
 			}
@@ -1011,7 +1208,7 @@ func main() {
 				run.Fail(idx, "http-path-disagrees", fmt.Sprintf("direct=%s http=%s %s %s", ob.Stage, ob.HTTPStatus, ob.HTTPErr, tag), c)
 			case ob.HTTPStatus == "error" && ob.HTTPCallsF+ob.HTTPCallsG != 0:
 				run.Fail(idx, "resolver-ran-before-rejection", fmt.Sprintf("http: calls f=%d g=%d %s", ob.HTTPCallsF, ob.HTTPCallsG, tag), c)
-			case ob.HTTPStatus == "ok" && !valEq(ob.HTTPDump, ob.Dump):
+			case ob.HTTPStatus == "ok" && !multi && !valEq(ob.HTTPDump, ob.Dump):
 				run.Fail(idx, "http-path-disagrees", "http="+js(ob.HTTPDump)+" direct="+js(ob.Dump)+" "+tag, c)
 			}
 			// ... and so must the websocket handlers (server.go handleSubscribe / handleMutate)
@@ -1022,10 +1219,93 @@ func main() {
 				run.Fail(idx, "ws-path-disagrees", fmt.Sprintf("direct=%s %s=%s %s %s", ob.Stage, ob.WSKind, ob.WSStatus, ob.WSErr, tag), c)
 			case ob.WSStatus == "error" && ob.WSCallsF+ob.WSCallsG != 0:
 				run.Fail(idx, "resolver-ran-before-rejection", fmt.Sprintf("ws %s: calls f=%d g=%d %s", ob.WSKind, ob.WSCallsF, ob.WSCallsG, tag), c)
-			case ob.WSStatus == "ok" && !valEq(ob.WSDump, ob.Dump):
+			case ob.WSStatus == "ok" && !multi && !valEq(ob.WSDump, ob.Dump):
 				run.Fail(idx, "ws-path-disagrees", ob.WSKind+"="+js(ob.WSDump)+" direct="+js(ob.Dump)+" "+tag, c)
-			case ob.WSStatus == "ok" && (ob.WSCallsF != 1 || ob.WSCallsG != 1):
+			case ob.WSStatus == "ok" && (ob.WSCallsF != wantF || ob.WSCallsG != 1):
 				run.Fail(idx, "resolver-call-count", fmt.Sprintf("ws %s: calls f=%d g=%d %s", ob.WSKind, ob.WSCallsF, ob.WSCallsG, tag), c)
+			}
+			if multi {
+				// selections are independent: each one is parsed from its own arguments, whatever the others look like
+				wantReject := false
+				for _, sel := range s.Sels {
+					if sel.Expect == "reject" {
+						wantReject = true
+					}
+				}
+				var dumps []*Val
+				switch {
+				case wantReject && ob.Stage == "ok":
+					run.Fail(idx, "selection-with-refusable-arguments-accepted", "answer="+js(ob.Result)+" "+tag, c)
+				case !wantReject && (ob.Stage == "parse" || ob.Stage == "args"):
+					run.Fail(idx, "valid-value-rejected-"+s.Transport, ob.Err+" "+tag, c)
+				}
+				if ob.Stage == "ok" {
+					for _, sel := range s.Sels {
+						var got *Val
+						if txt, ok := ob.Result[sel.Alias].(string); ok {
+							got = new(Val)
+							if json.Unmarshal([]byte(txt), got) != nil {
+								got = nil
+							}
+						}
+						dumps = append(dumps, got)
+						if got == nil {
+							run.Fail(idx, "selection-without-answer", sel.Alias+" answer="+js(ob.Result)+" "+tag, c)
+						} else if sel.Expect == "echo" && !valEq(got, sel.Sent) {
+							run.Fail(idx, "selection-received-other-arguments", sel.Alias+" got="+js(got)+" sent="+js(sel.Sent)+" "+tag, c)
+						}
+					}
+				}
+				// Coq term: the document as sent
+				var defs, frags, body []string
+				for _, d := range s.Defs {
+					def := "None"
+					if d.Default != nil {
+						def = "(Some " + d.Default.coq() + ")"
+					}
+					defs = append(defs, fmt.Sprintf("(mk_vardef %s %s %s)", vh.CoqString(d.Name), vh.CoqBool(d.NonNull), def))
+				}
+				for k2, sel := range s.Sels {
+					f := "(SField \"f\" " + coqFields(sel.Args) + ")"
+					switch sel.Place {
+					case "fragment":
+						name := vh.CoqString(fmt.Sprintf("Fr%d", k2))
+						frags = append(frags, "("+name+", ["+f+"])")
+						body = append(body, "(SSpread "+name+")")
+					case "inline":
+						body = append(body, "(SInline ["+f+"])")
+					default:
+						body = append(body, f)
+					}
+				}
+				var vars map[string]interface{}
+				if s.Vars != nil {
+					raw, _ := json.Marshal(s.Vars)
+					json.Unmarshal(raw, &vars)
+				}
+				mo := "MOther"
+				switch ob.Stage {
+				case "ok":
+					ok := true
+					var xs []string
+					for _, d := range dumps {
+						if d == nil {
+							ok = false
+							break
+						}
+						xs = append(xs, d.coq())
+					}
+					if ok {
+						mo = "(MOk " + vh.CoqList(xs) + ")"
+					}
+				case "parse":
+					mo = "MErrParse"
+				case "args":
+					mo = "MErrArgs"
+				}
+				multiTerms = append(multiTerms, fmt.Sprintf("(mk_msend %s (mk_doc %s %s %s) %s %s)", coqVars(vars), vh.CoqList(defs),
+					vh.CoqList(frags), vh.CoqList(body), mo, vh.CoqZ(int64(ob.CallsF))))
+				continue
 			}
 			switch c.Expect {
 			case "echo":
@@ -1072,7 +1352,7 @@ func main() {
 			sendTerms = append(sendTerms, fmt.Sprintf("(mk_send %s %s %s %s %s %s)", vh.CoqList(defs), coqVars(vars), coqFields(s.Args), place, ot, vh.CoqZ(int64(ob.CallsF))))
 		}
 		// transports agree
-		if !c.NoEquiv {
+		if !c.NoEquiv && c.Class != "look-alike" {
 			for k := 1; k < len(obs); k++ {
 				a, bb := obs[0], obs[k]
 				okA, okB := a.Stage == "ok", bb.Stage == "ok"
@@ -1091,7 +1371,7 @@ func main() {
 		if searching {
 			continue
 		}
-		terms = append(terms, fmt.Sprintf("(%d, mk_case %s %s)", idx, b.mty.coq(), vh.CoqList(sendTerms)))
+		terms = append(terms, fmt.Sprintf("(%d, mk_case %s %s %s)", idx, b.mty.coq(), vh.CoqList(sendTerms), vh.CoqList(multiTerms)))
 		if len(terms) >= shard {
 			flush(idx + 1)
 		}
